@@ -77,10 +77,23 @@ LETTERS = {
     'idle': ('select', [{'kind': 'idle'}, {'kind': 'done'}]),
 }
 NAMES = list(LETTERS)
+# interference: another session of the same user changes the namespace under
+# the session being examined (class 'ext', never gated, run by session 8)
+EXT = {
+    'ext_delete_other': [{'kind': 'delete', 'mailbox': 'Other'}],
+    'ext_rename_other': [{'kind': 'rename', 'mailbox': 'Other',
+                          'to': 'Moved'}],
+    'ext_create_other': [{'kind': 'create', 'mailbox': 'Other'}],
+    'ext_append_inbox': [{'kind': 'append', 'mailbox': 'INBOX',
+                          'msgs': [_msg(60)], 'literal': 'litplus'}],
+}
+for _name, _acts in EXT.items():
+    LETTERS[_name] = ('ext', _acts)
 STARTS = {'nonauth': [],
           'auth': ['login_good'],
           'selected': ['login_good', 'select_inbox'],
-          'examined': ['login_good', 'examine_inbox']}
+          'examined': ['login_good', 'examine_inbox'],
+          'selected_other': ['login_good', 'select_other']}
 
 
 def make_case(start: str, program: list[str], tls: bool = False,
@@ -104,11 +117,15 @@ class StateModel:
         self.tls_pending = tls       # credentials refused until STARTTLS
         self.starttls_offered = tls
         self.boxes = {'INBOX', 'Other'}
+        # the selected mailbox was deleted or renamed by someone else: the
+        # statement does not say whether the session is still selected, only
+        # that CLOSE succeeds and that SELECT/EXAMINE behave as always
+        self.dangling = False
 
     def allowed(self, cls: str) -> bool:
         if self.state == 'logout':
             return False
-        if cls == 'any':
+        if cls in ('any', 'ext'):
             return True
         if cls == 'nonauth':
             return self.state == 'nonauth'
@@ -122,7 +139,8 @@ class StateModel:
 
 def dump_all(ctx: Ctx, boxes) -> dict:
     out = {}
-    for name in sorted(boxes) + ['New', 'Missing', 'Elsewhere']:
+    for name in sorted(set(boxes) | {'New', 'Missing', 'Elsewhere', 'Moved',
+                                     'Other'}):
         d = ctx.probe(name, extra_attrs=())
         if d is None:
             out[name] = None
@@ -158,6 +176,12 @@ def run_program(case: dict, trace: bool = False) -> dict:
                  {'kind': 'logout'}]
         for act in setup:
             ctx.run_step({'actions': [dict(act, sess=9)]}, -1)
+        if any(LETTERS[st['letter']][0] == 'ext' for st in case['steps']):
+            ctx.run_step({'actions': [{'sess': 8, 'kind': 'connect',
+                                       'peer': '127.0.0.1'}]}, -1)
+            ctx.run_step({'actions': [{'sess': 8, 'kind': 'login',
+                                       'user': 'user',
+                                       'password': 'pass'}]}, -1)
         ctx.run_step({'actions': [{'sess': 0, 'kind': 'connect'}]}, -1)
         cl = ctx.clients[0]
 
@@ -189,6 +213,21 @@ def run_program(case: dict, trace: bool = False) -> dict:
             cls, actions = LETTERS[name]
             if cl.conn.done:
                 break
+            if cls == 'ext':
+                for act in actions:
+                    c = ctx.run_step({'actions': [dict(act, sess=8)]}, i)[0]
+                    ctx.clients[8].pending.clear()
+                ctx.stat('interference')
+                if c is not None and c.ok:
+                    if name in ('ext_delete_other', 'ext_rename_other'):
+                        model.boxes.discard('Other')
+                        if name == 'ext_rename_other':
+                            model.boxes.add('Moved')
+                        if model.mailbox == 'Other':
+                            model.dangling = True
+                    elif name == 'ext_create_other':
+                        model.boxes.add('Other')
+                continue
             before_state = model.snapshot()
             allowed = model.allowed(cls)
             before_dump = dump_all(ctx, model.boxes) if not allowed else None
@@ -202,6 +241,14 @@ def run_program(case: dict, trace: bool = False) -> dict:
                 continue
             ctx.stat('letters')
             cond = cmd.cond
+            if model.dangling and name != 'logout' and (
+                    cl.conn.done or cl.conn.server_closed) and any(
+                        r.name == b'BYE' for r in cmd.untagged):
+                # the server's way out: "* BYE Selected mailbox no longer
+                # exists." and disconnect (RFC 3501 7.1.5 allows a BYE at
+                # any time); nothing more to observe on this connection
+                ctx.stat('bye_after_mailbox_removed')
+                break
             what = 'step %d %s in state %s' % (i, name, before_state)
             if cond is None and not cl.conn.done:
                 ctx.violate('C05', 'unanswered', '%s: no tagged reply'
@@ -269,6 +316,7 @@ def run_program(case: dict, trace: bool = False) -> dict:
                     model.state = 'selected'
                     model.mailbox = target
                     model.readonly = name.startswith('examine')
+                    model.dangling = False
                 else:
                     if cond == 'OK':
                         ctx.violate('C05', 'select', '%s: missing mailbox '
@@ -276,13 +324,19 @@ def run_program(case: dict, trace: bool = False) -> dict:
                         break
                     model.state = 'auth'
                     model.mailbox = None
+                    model.dangling = False
             elif name == 'close':
                 if cond != 'OK':
-                    ctx.violate('C05', 'close', '%s: CLOSE answered %s'
-                                % (what, cond), sig={'letter': name})
+                    ctx.violate('C05', 'close', '%s: CLOSE answered %s%s'
+                                % (what, cond, ' (the selected mailbox was '
+                                   'removed by another session)'
+                                   if model.dangling else ''),
+                                sig={'letter': name,
+                                     'dangling': model.dangling})
                     break
                 model.state = 'auth'
                 model.mailbox = None
+                model.dangling = False
             elif name == 'logout':
                 byes = [r for r in cmd.untagged if r.name == b'BYE']
                 if cond != 'OK' or not byes:
@@ -303,13 +357,15 @@ def run_program(case: dict, trace: bool = False) -> dict:
             auth, sel, toks = reveal()
             want_auth = model.state in ('auth', 'selected')
             want_sel = model.state == 'selected'
+            if model.dangling:
+                sel = want_sel      # either answer of CHECK is acceptable
             if auth != want_auth or sel != want_sel:
                 ctx.violate('C05', 'state', '%s answered %s: revealed '
                             'authenticated=%s selected=%s, model says %s'
                             % (what, cond, auth, sel, model.snapshot()),
                             sig={'letter': name})
                 break
-            if want_sel:
+            if want_sel and not model.dangling:
                 actual = box_tokens(ctx, model.mailbox)
                 if toks != actual:
                     ctx.violate('C05', 'which-mailbox', '%s: session sees '
@@ -347,8 +403,15 @@ class C05(Profile):
             'random programs of length 4-12 with random input chunking. '
             'After every letter three effect-free probes (LIST "" "", CHECK, '
             'UID FETCH 1:*) reveal the real state and a refused letter must '
-            'leave state and all mailbox dumps unchanged. Non-trivial = '
-            'program of >= 2 letters after the start prefix.' % len(LETTERS))
+            'leave state and all mailbox dumps unchanged. Interference: a '
+            'second session of the same user deletes / renames / re-creates '
+            'the selected mailbox or appends (4 ext letters); quick runs '
+            '[ext, every letter, CLOSE] and [ext, re-create, every letter] '
+            'from two selected start states, random programs insert 1-3 ext '
+            'letters in 40%% of the cases; after the selected mailbox has '
+            'gone either answer of the CHECK probe is accepted, CLOSE must '
+            'still answer OK and deselect. Non-trivial = '
+            'program of >= 2 letters after the start prefix.' % len(NAMES))
     assumptions = C01.assumptions + [
         'bad_command_limit is disabled for this profile so that the reveal '
         'probes (which are refused with BAD in early states) do not '
@@ -362,6 +425,14 @@ class C05(Profile):
                     yield make_case(start, [name], tls)
                 for a, b in itertools.product(NAMES, NAMES):
                     yield make_case(start, [a, b], tls)
+        # interference: the selected mailbox disappears, then every letter,
+        # then CLOSE
+        for ext in ('ext_delete_other', 'ext_rename_other'):
+            for start in ('selected_other', 'selected'):
+                for name in NAMES:
+                    yield make_case(start, [ext, name, 'close'], False)
+                    yield make_case(start, [ext, 'ext_create_other', name],
+                                    False)
         if tier == 'thorough':
             for prog in itertools.product(NAMES, NAMES, NAMES):
                 yield make_case('nonauth', list(prog), False)
@@ -374,6 +445,10 @@ class C05(Profile):
                   'examine_inbox', 'select_missing', 'auth_good', 'logout']
         prog = [rng.choice(movers) if rng.random() < 0.35
                 else rng.choice(NAMES) for _ in range(n)]
+        if rng.random() < 0.4:
+            for _ in range(rng.randint(1, 3)):
+                prog.insert(rng.randrange(len(prog) + 1),
+                            rng.choice(list(EXT)))
         return make_case(start, prog, rng.random() < 0.3,
                          rng.getrandbits(32))
 
